@@ -326,6 +326,8 @@ def random_accepted(dfa, rng, max_len=12, stop=0.3):
         if dfa["acc"][q] and (len(w) >= max_len or rng.random() < stop):
             return w
         choices = [c for c, t in enumerate(dfa["delta"][q]) if t in good]
+        if not choices:
+            return w
         if len(w) >= max_len:
             # head for acceptance by the shortest way
             w2 = shortest_from(dfa, q)
